@@ -42,6 +42,13 @@ def step (s : St) (w : List String) : St × String :=
         (mineTimeout := T) (nodeCount := (n : Int))
       (s, s!"{w.1} {w.2}")
     | _, _, _, _, _ => (s, "bad-op")
+  | ["sleep", n, d, pt, now, T, bi] =>
+    match n.toNat?, d.toNat?, parseInt? pt, parseInt? now, parseInt? T, parseInt? bi with
+    | some n, some d, some pt, some now, some T, some bi =>
+      let r := getSleepTime (mineHeight := 0) (distance := d) (parentTime := pt) (currentTime := now)
+        (m_timeoutTime := T) (nodeCount := (n : Int)) (m_blockInterval := bi)
+      (s, s!"{r.1} {r.2}")
+    | _, _, _, _, _, _ => (s, "bad-op")
   | ["terms", h] =>
     match h.toNat? with
     | some h =>
